@@ -20,6 +20,7 @@ import CelloProofs.Lemmas.FmtShow
 import CelloProofs.Lemmas.FmtBuiltin
 import CelloProofs.Lemmas.FmtReject
 import CelloProofs.Lemmas.FmtAlias
+import CelloProofs.Lemmas.FmtSize
 
 namespace Cello.Fmt
 
@@ -772,5 +773,111 @@ example :
     r.out.sink = .file ("tuple(<'Box' at 0xp (<'Table' At 0xp {n:\"n\", n:<NULL>}>)>, <'Range' At 0xp [n, n]>, " ++
       "<'Slice' At 0xp [f]>, <'File' At 0xp>, Tree, <'Tree' At 0xp {}>, <'Box' at 0xp (<NULL>)>)").toList := by
   decide +kernel
+
+/-! ## extension round: the sink methods at block level, the argument types -/
+
+/-- **`String_Format_To`'s sizing as it is in the source**: the statements, the size handed to `realloc` (`pos + size + 1`) and the offset of the
+    `vsprintf` destination (`pos`) the translator reads from src/String.c are the program the block-level lemmas are about. -/
+theorem C14_string_format_to_sizing_source : sftNow = sftModelled := by decide
+
+/-- **Two-pass sizing, every length.** For every block that reaches the start position (`pos ≤` its size), every text `t` libc formats for the call
+    (any length, any bytes) `String_Format_To` measures `|t|`, grows or shrinks the block to `pos + |t| + 1` bytes, writes `t` and the terminator
+    at `pos` — inside the block — and returns `|t|`: the block afterwards is exactly `block[0..pos) ++ t ++ NUL`.  libc's formatter is the parameter `t`. -/
+theorem C14_string_format_to_block (b : List Cell) (pos : Nat) (t : Str) (h : pos ≤ b.length) :
+    sftNow.run b pos t = .ret (b.take pos ++ (t ++ [NUL]).map some) t.length ∧
+    (b.take pos ++ (t ++ [NUL]).map some).length = pos + t.length + 1 := by
+  rw [C14_string_format_to_sizing_source, run_modelled b pos t h]
+  refine ⟨rfl, ?_⟩
+  simp [List.length_take]; omega
+
+/-- **String content after = prefix[0..pos) ++ formatted, returned = length formatted**, as C string: a String holding `v` (its block is `v` and
+    the terminator), a start position inside it, a text free of NUL bytes: the call returns `|t|`, the String's C value is `v[0..pos) ++ t` — what
+    the abstract sink `Sink.write` of the other theorems says — and the block has not one byte more than that and its terminator. -/
+theorem C14_string_content_after_call (v : Str) (pos : Nat) (t : Str) (h : pos ≤ v.length)
+    (hv : ∀ c ∈ v, c ≠ NUL) (ht : ∀ c ∈ t, c ≠ NUL) :
+    ∃ b', sftNow.run (blockOf v) pos t = .ret b' t.length ∧ b'.length = pos + t.length + 1 ∧
+      cstrCells b' = some (v.take pos ++ t) ∧ Sink.write (.str v) pos t = .str (v.take pos ++ t) := by
+  have hf := follows_blockOf v pos h
+  obtain ⟨hrun, _⟩ := follows_step (blockOf v) v pos t hf
+  refine ⟨blockOf (v.take pos ++ t), by rw [C14_string_format_to_sizing_source]; exact hrun, ?_, ?_, rfl⟩
+  · simp [blockOf, List.length_take]; omega
+  · apply cstr_blockOf
+    intro c hc
+    rcases List.mem_append.mp hc with hc | hc
+    · exact hv c (List.mem_of_mem_take hc)
+    · exact ht c hc
+
+/-- **Position accounting at block level, whole call log.** Replaying the primitive calls of a run (literal runs, `%%`, specifications, the calls of
+    `show`) on the block of a String holding `v`, from any start position inside it: no call leaves the block, the replay ends at the position
+    `emitAll` computes (`pos += off` per call, `%%` counts the one character libc writes for it), and after at least one call the block is exactly
+    the bytes of the abstract String sink and one terminator. -/
+theorem C14_block_follows_sink (libc : Libc) (cs : List Call) (hacc : ∀ c ∈ cs, libc.rej c.frag c.val = false)
+    (v : Str) (start : Nat) (h : start ≤ v.length) :
+    let o : Out := ⟨.str v, start, []⟩
+    ∃ v' b', (emitAll (primNow libc) o cs).sink = .str v' ∧
+      replayBlock sftNow (primNow libc) cs (blockOf v) start = (b', (emitAll (primNow libc) o cs).pos, true) ∧
+      (cs ≠ [] → b' = blockOf v' ∧ v'.length = (emitAll (primNow libc) o cs).pos ∧ b'.length = (emitAll (primNow libc) o cs).pos + 1) := by
+  intro o
+  obtain ⟨v', b', h1, h2, _, h4⟩ := replay_emitAll (primNow libc) cs hacc (blockOf v) o v rfl (follows_blockOf v start h)
+  refine ⟨v', b', h1, by rw [C14_string_format_to_sizing_source]; exact h2, fun hne => ?_⟩
+  obtain ⟨hb, hl⟩ := h4 hne
+  refine ⟨hb, hl, ?_⟩
+  rw [hb, ← hl]; simp [blockOf]
+
+/-- A block one byte short (`realloc(val, pos + size)`: the class of fit tests that are off by one at a buffer size) is refuted for EVERY call:
+    no accepted call returns — the terminator is written outside the block, or the block was freed. -/
+theorem C14_sizing_without_terminator_refuted (b : List Cell) (pos : Nat) (t : Str) :
+    ∀ b' n, sftNoTerminator.run b pos t ≠ .ret b' n := by
+  intro b' n hr
+  rcases run_noTerminator b pos t with ⟨x, hx⟩ | ⟨x, hx⟩ <;> rw [hx] at hr <;> cases hr
+
+/-- Writing one byte late (`vsprintf(val + pos + 1, …)`) is refuted for every call. -/
+theorem C14_sizing_write_late_refuted (b : List Cell) (pos : Nat) (t : Str) : ∀ b' n, sftLate.run b pos t ≠ .ret b' n := by
+  intro b' n hr
+  obtain ⟨x, hx⟩ := run_late b pos t
+  rw [hx] at hr; cases hr
+
+/-- **`File_Format_To` as it is in the source**: the NULL-stream refusal, then `return vfprintf(f->file, fmt, va);` — nothing else, `pos` unused. -/
+theorem C14_file_format_to_steps : fftNow = [.nullCheck, .write] := fftNow_eq
+
+/-- **Both sinks account alike**: for the same accepted call a String (any block reaching `pos`) and an open File return the same count `|t|`
+    (so `pos += off` gives the same positions), the File's content grows by exactly `t`; a File without a stream refuses with IOError. -/
+theorem C14_sinks_return_same_count (b : List Cell) (pos : Nat) (t c : Str) (h : pos ≤ b.length) :
+    (∃ b', sftNow.run b pos t = .ret b' t.length) ∧ fftAccept t fftNow (some c) = .ret (some (c ++ t)) t.length ∧
+    fftAccept t fftNow none = .ioError none := by
+  rw [fftNow_eq]
+  exact ⟨⟨_, (C14_string_format_to_block b pos t h).1⟩, fft_open c t, fft_closed t⟩
+
+/-- **The C type each specification reads is the C type `print_to_with` passes.**  For every conversion of the grammar but `%$` and every length
+    modifier the grammar allows for it: exactly one arm of the dispatch read from src/Show.c fires; the declared result type (include/Cello.h) of
+    the cast in that arm — `int64_t c_int`, `double c_float`, `char* c_str`, `var` = `void*` — is in the x86-64 register class `printf` fetches
+    that specification's argument from (C11 7.21.6.1: `int` for none / `hh` / `h` and `%c`, `long` … `ptrdiff_t` for `l ll j z t`, `double`,
+    `char*`, `void*`) and is at least as wide.  (That the fetch of a narrower type sees the low bits of the slot is the ABI: trusted.) -/
+theorem C14_arg_types_match_printf :
+    ∀ c ∈ grammarConvs, c ≠ '$' → ∀ lm ∈ lensFor c, argTypeOK CelloGen.Fmt.castResultTypes cfgNow lm c = true := by
+  decide
+
+/-- the grammar's length modifiers are exactly those for which the type table is defined: everything else (`L`, `%lc`, `%ls`, `%hs` …) makes
+    libc fetch a type `print_to_with` cannot supply — outside the property -/
+theorem C14_arg_type_table_is_the_grammar :
+    ∀ c ∈ grammarConvs, ∀ lm ∈ allLens, (printfReads lm c).isSome = (decide (lm ∈ lensFor c) && c != '$') := by
+  decide
+
+/-- `%$` takes no cast: the object goes to `show_to`, nothing of it through the varargs -/
+theorem C14_show_dispatch_passes_nothing :
+    firing cfgNow '$' = [.show] ∧ passedSlot CelloGen.Fmt.castResultTypes .show = none := by
+  decide
+
+/-- Non-vacuity of the block-level theorems: "hello" written at 2 into a String holding "abcdef" (the block grows from 7 to 8 bytes),
+    a text of length 0 at the end, `%%` in a log; an `int` fetched from the slot of `2^32 + 5` sees 5. -/
+example :
+    sftNow.run (blockOf "abcdef".toList) 2 "hello".toList = .ret (blockOf "abhello".toList) 5 ∧
+    sftNow.run (blockOf "abc".toList) 3 [] = .ret (blockOf "abc".toList) 0 ∧
+    sftNoTerminator.run (blockOf "abc".toList) 3 ['x'] = .ub (blockOf "abc".toList) ∧
+    replayBlock sftNow primTest [⟨['a'], .none⟩, ⟨['%', '%'], .none⟩, ⟨['%', 'd'], .i64 7⟩] (blockOf "xy".toList) 1 = (blockOf "xa%n".toList, 4, true) ∧
+    lowBits 32 (2 ^ 32 + 5) = 5 ∧ lowBits 32 (-1) = 4294967295 ∧
+    argTypeOK [("c_int", "int"), ("c_float", "double"), ("c_str", "char*"), ("var", "void*")] cfgNow ['l'] 'd' = false := by
+  decide
+
 
 end Cello.Fmt
